@@ -15,6 +15,15 @@ def handleCli (op : String) (args : List String) : String :=
       | some (ow, oh) => s!"{ow} {oh}"
       | none => "err"
     | _, _, _, _, _ => "bad-op"
+  | "exportplan", [pw, ph, bx, by_, bw, bh, w, h, z, pg] =>
+    match pw.toNat?, ph.toNat?, parseF32? bx, parseF32? by_, parseF32? bw, parseF32? bh, optNat? w, optNat? h, optF32? z with
+    | some pw, some ph, some bx, some by_, some bw, some bh, some w, some h, some z =>
+      match exportPlan F32.rnd (fitToOf w h z) (pw, ph) bx by_ bw bh (pg == "1") with
+      | some p =>
+        let (x0, y0, x1, y1) := p.painted bw bh
+        s!"{p.canvas.1} {p.canvas.2} {x0} {y0} {x1} {y1}"
+      | none => "err"
+    | _, _, _, _, _, _, _, _, _ => "bad-op"
   | _, _ => "bad-op"
 
 end Driver
